@@ -30,7 +30,7 @@ OPS = ([('set_up', None), ('set_up', 'DEBUG'), ('set_up', 'WARNING'), ('set_up_f
        [('call', v) for v in (None,) + LEVELS] + [('call_raise', v) for v in (None,) + LEVELS] +
        # the same variant twice within a short history (the rotating calls never repeat a variant within 3 steps)
        [('call_sift', None), ('call_sift', 'CRITICAL')])
-VARIANTS = ('sift', 'mask_sift', 'ensemble_sift')
+VARIANTS = ('sift', 'mask_sift', 'ensemble_sift', 'complete_ensemble_sift')
 
 
 def bounds(tier):
@@ -63,10 +63,14 @@ def do_call(variant, x, verbose):
         if not (np.array_equal(freqs, [0.31234567, 0.12345678]) and np.array_equal(amps, [0.71234567, 1.23456789])):
             return np.full_like(out, np.nan)    # options were modified: reported as a result difference
         return np.c_[out, np.resize(np.asarray(used, dtype=float), out.shape[0])]
+    if variant == 'complete_ensemble_sift':
+        out, noise = S.complete_ensemble_sift(x, nensembles=2, max_imfs=2, nprocesses=2, **kw)
+        return np.c_[out, noise]
     return S.ensemble_sift(x, nensembles=2, max_imfs=2, nprocesses=2, **kw)
 
 
 _ref = {}
+_OFFSET = [0]     # the set-up root starts the variant rotation one step later, so depth 3 reaches all four variants
 
 
 def references(seed):
@@ -112,12 +116,12 @@ def apply_op(op, pos, seed, tmpdir):
         elif name == 'enable':
             emd.logger.enable()
         elif name in ('call', 'call_sift'):
-            v = VARIANTS[pos % 3] if name == 'call' else 'sift'
+            v = VARIANTS[(pos + _OFFSET[0]) % 4] if name == 'call' else 'sift'
             got = np.asarray(do_call(v, x.copy(), arg)).tobytes()
             if got != references(seed)[v]:
                 viols.append(('result-depends-on-logging', '%s(verbose=%r) returned a different result' % (v, arg)))
         elif name == 'call_raise':
-            v = VARIANTS[pos % 3]
+            v = VARIANTS[(pos + _OFFSET[0]) % 4]
             bad = np.tile(x[:, None, None], (1, 2, 3))
             try:
                 do_call(v, bad, arg)
@@ -243,6 +247,7 @@ def check_case(case):
                 os._exit(0)
             st = {'setup': False, 'level': None, 'disabled': False}
             hist = []
+            _OFFSET[0] = 1 if root == 'set-up' else 0
             if root == 'set-up':
                 emd.logger.set_up()
                 st = model_step(st, ('set_up', None))
@@ -306,6 +311,7 @@ def check_history(case):
                     pickle.dump(viols, f)
                 os._exit(0)
             st = {'setup': False, 'level': None, 'disabled': False}
+            _OFFSET[0] = 1 if root == 'set-up' else 0
             if root == 'set-up':
                 emd.logger.set_up()
                 st = model_step(st, ('set_up', None))
